@@ -4,7 +4,7 @@ use crate::UCanonicalGoal;
 use chalk_ir::{interner::Interner, NoSolution};
 use chalk_ir::{Canonical, ConstrainedSubst, Goal, InEnvironment, UCanonical};
 use chalk_ir::{Constraints, Fallible};
-use chalk_solve::{coinductive_goal::IsCoinductive, RustIrDatabase, Solution};
+use chalk_solve::{coinductive_goal::IsCoinductive, Guidance, RustIrDatabase, Solution};
 use std::fmt;
 
 /// A Solver is the basic context in which you can propose goals for a given
@@ -92,7 +92,12 @@ impl<I: Interner> SolverStuff<UCanonicalGoal<I>, Fallible<Solution<I>>> for &dyn
             // Subtle: if our current answer is ambiguous, we can just stop, and
             // in fact we *must* -- otherwise, we sometimes fail to reach a
             // fixed point. See `multiple_ambiguous_cycles` for more.
+            // An answer with *definite* guidance still makes a claim (every
+            // solution is an instance of it) that the next iteration may
+            // refute, so only cut the iteration short for answers that claim
+            // nothing.
             match &current_answer {
+                Ok(Solution::Ambig(Guidance::Definite(_))) => false,
                 Ok(s) => s.is_ambig(),
                 Err(_) => false,
             }
